@@ -98,7 +98,11 @@ def run_resume(system: System, ops, store: str, k: int, workdir: str):
     # stale leftovers of lower indices must not matter
     if k >= 1:
         stage_checkpoint(store, d, k - 1, families=("sopht", "rod", "forcing"))
-    t = system.restore(k, d, use_helper=True)
+    try:
+        t = system.restore(k, d, use_helper=True)
+    except Exception as e:  # noqa: BLE001  the helper refused a complete, consistent checkpoint set
+        shutil.rmtree(d, ignore_errors=True)
+        return {"refused": f"{type(e).__name__}: {e}"}
     obs = [system.observe()]
     for j in range(k, len(ops)):
         system.step(ops[j])
@@ -327,8 +331,14 @@ class C18(Check):
 
     def _compare(self, res, traj, out, k, eps, sig0, mode):
         n_bit = n_cmp = 0
-        obs = out["obs"]
         t_want = float(traj[k]["time"][0])
+        if "refused" in out:
+            if np.isfinite(t_want):
+                res.violation("restart_helper", dict(sig0, what="refused_valid_checkpoint", mode=mode), f"restart from the complete checkpoint set k={k} was refused: {out['refused']}")
+            else:
+                res.probe("checkpoint_time_not_finite")
+            return 0, 0
+        obs = out["obs"]
         if np.float64(out["t"]).tobytes() != np.float64(t_want).tobytes():
             res.violation("restart_helper", dict(sig0, what="returned_time", mode=mode), f"restart at k={k} returned time {out['t']!r}, checkpoint time {t_want!r}")
         for idx, o in enumerate(obs):
